@@ -113,6 +113,11 @@ func (m model) apply(op int) model {
 type history struct {
 	Ops     []int `json:"ops"`
 	Corrupt []int `json:"corrupt,omitempty"` // entries (by index) whose log message cannot be decompressed: the replicator skips them
+	// Late: the database accepts writes up to 3 days behind (option Behind), so the history's family (yesterday) is
+	// still writable and the log garbage collector must keep its log. Without it (default window, 1h) the family is
+	// past its writable window: the collector removes the log once everything is acknowledged, and no write arrives
+	// for the family after that (the history ends at the first append after a removal).
+	Late bool `json:"late_writes,omitempty"`
 }
 
 func (h history) String() string {
@@ -123,6 +128,9 @@ func (h history) String() string {
 	out := strings.Join(s, ";")
 	if len(h.Corrupt) > 0 {
 		out += fmt.Sprintf(" corrupt-entries=%v", h.Corrupt)
+	}
+	if h.Late {
+		out += " [writable 3d behind]"
 	}
 	return out
 }
@@ -136,14 +144,15 @@ var corrupt = map[int]bool{}
 var walPageSize int
 
 var (
-	baseTime   int64
-	familyTime int64
-	queryRange timeutil.TimeRange
-	dbOpt      *option.DatabaseOption
-	scratch    string
-	rec        *vcrashfs.Recorder // nil = not recording
-	pageRec    *qpages.Recorder
-	realPageFn func(path string, pageSize int) (page.Factory, error)
+	baseTime                int64
+	familyTime              int64
+	queryRange              timeutil.TimeRange
+	dbOpt                   *option.DatabaseOption // the option of the running history: dbOptDefault or dbOptLate
+	dbOptDefault, dbOptLate *option.DatabaseOption
+	scratch                 string
+	rec                     *vcrashfs.Recorder // nil = not recording
+	pageRec                 *qpages.Recorder
+	realPageFn              func(path string, pageSize int) (page.Factory, error)
 )
 
 type node struct {
@@ -154,6 +163,8 @@ type node struct {
 	cancel  context.CancelFunc
 	wal     replica.WriteAheadLogManager
 	part    replica.Partition
+	// recreated counts the partitions the write path created again after the log garbage collector removed one
+	recreated int
 }
 
 var tOpen, tClose, tQuery, tReplay time.Duration
@@ -177,18 +188,29 @@ func openNode(root string) (*node, error) {
 			return nil, fmt.Errorf("wal recovery: %w", err)
 		}
 	}
+	if err := n.acquirePartition(); err != nil {
+		n.close()
+		return nil, err
+	}
+	return n, nil
+}
+
+// acquirePartition does what the write path does before every append: get or create the family's partition and
+// build the local replicator (a partition the log garbage collector removed is created again by the next write).
+func (n *node) acquirePartition() error {
 	log := n.wal.GetOrCreateLog("db")
 	p, err := log.GetOrCreatePartition(models.ShardID(1), familyTime, models.NodeID(1))
 	if err != nil {
-		n.close()
-		return nil, fmt.Errorf("partition: %w", err)
+		return fmt.Errorf("partition: %w", err)
 	}
 	if err := p.BuildReplicaForLeader(models.NodeID(1), []models.NodeID{1}); err != nil {
-		n.close()
-		return nil, fmt.Errorf("build replica: %w", err)
+		return fmt.Errorf("build replica: %w", err)
+	}
+	if n.part != nil && p != n.part {
+		n.recreated++
 	}
 	n.part = p
-	return n, nil
+	return nil
 }
 
 func fileExists(p string) bool { _, err := os.Stat(p); return err == nil }
@@ -338,7 +360,11 @@ func (n *node) counts() ([]int, []string) {
 type note struct {
 	Acked    model
 	InFlight int // op in flight (-1 none)
+	LogBase  int // entries appended to logs the garbage collector has removed since (entry k has sequence k-LogBase)
 }
+
+// logBase: see note.LogBase (of the running history)
+var logBase int
 
 var cur note
 
@@ -472,6 +498,20 @@ func classify(h history) string {
 }
 
 func runHistory(rep *vevid.Report, h history) {
+	if runHistoryOnce(rep, h) && !h.Late {
+		// the collector removed the log of the (expired) family: the same history on a database whose writable
+		// window still covers the family, where the log must stay and later appends must not be lost
+		h.Late = true
+		runHistoryOnce(rep, h)
+	}
+}
+
+// runHistoryOnce reports whether the log garbage collector removed the family's log during the history.
+func runHistoryOnce(rep *vevid.Report, h history) (logRemoved bool) {
+	dbOpt = dbOptDefault
+	if h.Late {
+		dbOpt = dbOptLate
+	}
 	corrupt = map[int]bool{}
 	for _, k := range h.Corrupt {
 		corrupt[k] = true
@@ -491,7 +531,8 @@ func runHistory(rep *vevid.Report, h history) {
 	pageRec.After = func(op, rel string) { rec.At("page " + op + " " + rel) }
 	defer func() { rec = nil; pageRec = nil }()
 	acked := model{}
-	cur = note{Acked: acked, InFlight: -1}
+	logBase = 0
+	cur = note{Acked: acked, InFlight: -1, LogBase: logBase}
 	rec.Pause()
 	n, err := openNode(root)
 	if err != nil {
@@ -511,8 +552,11 @@ func runHistory(rep *vevid.Report, h history) {
 	rec.Resume()
 	rec.At("node created")
 	for _, op := range h.Ops {
-		cur = note{Acked: acked, InFlight: op}
+		cur = note{Acked: acked, InFlight: op, LogBase: logBase}
 		var opErr error
+		if op == opAppend && logRemoved && !h.Late {
+			break // no write arrives for a family whose writable window has passed
+		}
 		switch op {
 		case opAppend:
 			opErr = n.part.WriteLog(entryMsg(acked.Appended))
@@ -534,11 +578,20 @@ func runHistory(rep *vevid.Report, h history) {
 			}
 			opErr = err
 		case opWalGC:
-			// what partition.IsExpire does first (sync consumer-group acks to the queue, GC pages); the expiry
-			// decision itself (stop replicators of an old family) is not part of the history
-			log := replica.VerifPartitionLog(n.part)
-			log.Sync()
-			log.Queue().GC()
+			// one round of the log garbage-collect task: partition.IsExpire (sync consumer-group acks to the queue, GC
+			// pages, expiry decision - the family of the history is older than the writable window) and the removal
+			// of a partition that reports expired; then what the next write does first
+			replica.VerifGarbageCollect(n.wal)
+			before := n.recreated
+			opErr = n.acquirePartition()
+			if n.recreated > before {
+				rep.Count("log_partitions_removed_by_gc", 1)
+				logBase = acked.Appended
+				logRemoved = true
+				if h.Late {
+					viol("log-removed-while-writable", "replica.partition.IsExpire", fmt.Sprintf("the database accepts writes 3 days behind, the family (%s) is inside that window, but the log garbage collector removed its write-ahead log: the next write starts a new log at sequence 0 while the family already stores sequence %d, and is dropped as a stale sequence", time.UnixMilli(familyTime).UTC().Format("2006-01-02 15:04"), n.storedSeq()))
+				}
+			}
 		case opReopen:
 			n.close()
 			n, opErr = openNode(root)
@@ -548,7 +601,7 @@ func runHistory(rep *vevid.Report, h history) {
 			return
 		}
 		acked = acked.apply(op)
-		cur = note{Acked: acked, InFlight: -1}
+		cur = note{Acked: acked, InFlight: -1, LogBase: logBase}
 		rec.At("ack " + opName[op])
 	}
 	// live check at the end of the history: replay everything, query
@@ -617,6 +670,7 @@ func runHistory(rep *vevid.Report, h history) {
 	if len(rep.Samples) < 6 {
 		rep.Sample(map[string]interface{}{"history": h.String(), "seam_calls": calls, "crash_points": len(points)})
 	}
+	return logRemoved
 }
 
 func mineKey(key string) bool {
@@ -665,7 +719,7 @@ func recoverImage(rep *vevid.Report, h history, p *vcrashfs.Point, nt note) {
 	// (a log entry that cannot be decompressed holds no write: the replicator acknowledges it when it is the next one
 	// after the acknowledged position - such entries directly above the stored sequence do not count)
 	allowed := stored
-	for corrupt[int(allowed+1)] {
+	for nt.LogBase == 0 && corrupt[int(allowed+1)] {
 		allowed++
 	}
 	if ack > allowed {
@@ -687,8 +741,10 @@ func recoverImage(rep *vevid.Report, h history, p *vcrashfs.Point, nt note) {
 		}
 	}
 	// 2. every entry appended before the crash is still there
-	minApp := int64(nt.Acked.Appended) - 1
-	if app < minApp {
+	// (entries of a log the garbage collector removed are not in the log any more: they must be in the flushed data,
+	// which the query below decides; while the collector is at work either log may be found)
+	minApp := int64(nt.Acked.Appended-nt.LogBase) - 1
+	if app < minApp && nt.InFlight != opWalGC {
 		viol("wal-entry-lost", "pkg/queue", fmt.Sprintf("%d appends had returned, recovered appended sequence is %d", nt.Acked.Appended, app))
 	}
 	// 3. replay to quiescence, then a query by name and tags returns every entry exactly once
@@ -717,6 +773,12 @@ func recoverImage(rep *vevid.Report, h history, p *vcrashfs.Point, nt note) {
 		}
 	}
 	rep.Outcome(fmt.Sprintf("rec ack=%d stored=%d app=%d got=%v", ack, stored, app, got))
+	if !h.Late && stored > app {
+		// the collector removed the log of the family (default writable window: the family is past it): no write
+		// arrives for it any more
+		rep.Outcome("rec log removed")
+		return
+	}
 	// 4. a metric created after recovery must not collide with ids used by recovered files
 	rows, _ := vbox.Block([]vbox.Point{{Metric: "mz", Tags: map[string]string{"host": "z"}, Field: "f", Type: "sum", Value: 1e6, Timestamp: baseTime + 5000}})
 	n.metrics = append(n.metrics, "mz")
@@ -840,7 +902,15 @@ func main() {
 	rep.Bounds["indexItemsPerPage"] = ii
 	day := time.Now().UTC().Truncate(24*time.Hour).UnixMilli() - 24*3600*1000
 	baseTime = day + 10*3600*1000
-	dbOpt = &option.DatabaseOption{Intervals: option.Intervals{{Interval: timeutil.Interval(10_000), Retention: timeutil.Interval(3000 * 24 * 3600 * 1000)}}, AutoCreateNS: true}
+	dbOptDefault = &option.DatabaseOption{Intervals: option.Intervals{{Interval: timeutil.Interval(10_000), Retention: timeutil.Interval(3000 * 24 * 3600 * 1000)}}, AutoCreateNS: true}
+	dbOptLate = &option.DatabaseOption{Intervals: option.Intervals{{Interval: timeutil.Interval(10_000), Retention: timeutil.Interval(3000 * 24 * 3600 * 1000)}}, AutoCreateNS: true, Ahead: "1h", Behind: "3d"}
+	if err := dbOptLate.Validate(); err != nil {
+		vevid.Fatal("late-writes option: %v", err)
+	}
+	if _, behind := dbOptLate.GetAcceptWritableRange(); behind != 3*24*3600*1000 {
+		vevid.Fatal("late-writes option: behind = %d ms", behind)
+	}
+	dbOpt = dbOptDefault
 	familyTime = timeutil.Interval(10_000).Calculator().CalcFamilyTime(baseTime)
 	queryRange = timeutil.TimeRange{Start: baseTime, End: baseTime + 60000}
 	for k := 0; k < maxEntries; k++ {
@@ -870,7 +940,7 @@ func main() {
 		maxLen = 6
 	}
 	rep.Bounds["max_history_length_exhaustive"] = maxLen
-	rep.Rule = fmt.Sprintf("%d curated histories + all histories of length <=%d over {append (6 entries: existing series, new series, new metric), replicate (one local replicator step), flushMeta -> flushIndex -> flushData (production order, other ops allowed in between), walGC (sync acks + page GC), reopen} respecting preconditions; a crash image of the whole node directory after EVERY seam call (kv manifest/table writers, renames, removals, queue and consumer-group page stores, sequence sync); evaluations = distinct (image, entries appended, op in flight) recovered by a real node, replayed and queried; non-trivial = an operation was in flight", len(curated), maxLen)
+	rep.Rule = fmt.Sprintf("%d curated histories + all histories of length <=%d over {append (6 entries: existing series, new series, new metric), replicate (one local replicator step), flushMeta -> flushIndex -> flushData (production order, other ops allowed in between), walGC (one round of the log garbage-collect task: sync acks, page GC, removal of the expired partition when everything is acknowledged - then no append follows; histories with a removal run again with a 3-day writable window where the log must stay), reopen} respecting preconditions; a crash image of the whole node directory after EVERY seam call (kv manifest/table writers, renames, removals, queue and consumer-group page stores, sequence sync); evaluations = distinct (image, entries appended, op in flight) recovered by a real node, replayed and queried; non-trivial = an operation was in flight", len(curated), maxLen)
 	var idx int64
 	run := func(h history) bool {
 		idx++
